@@ -318,3 +318,104 @@ static Reg r_run_json("run_json", [](std::vector<std::string> const& a) -> std::
     std::string json = unhex(a.at(2));
     return run_child(cwd, prefix, [&json]() { return qpdfjob_run_from_json(json.c_str()); });
 });
+
+// ---------------------------------------------------------------------------------------------------------------------
+// cfg_replay <end> <call>;<call>;... : the call sequence predicted by the front-end MODEL, applied through the real
+// QPDFJob::Config API (the third interface of the manual: the C++ fluent API), then the same dump as cfg_argv/cfg_json.
+// call = obj.meth(hexarg,hexarg)   end = fin | front:<kind> | crash | schema | help
+namespace
+{
+    struct Replay
+    {
+        QPDFJob j;
+        std::shared_ptr<QPDFJob::Config> c_main;
+        std::shared_ptr<QPDFJob::CopyAttConfig> c_copy_att;
+        std::shared_ptr<QPDFJob::AttConfig> c_att;
+        std::shared_ptr<QPDFJob::GlobalConfig> c_global;
+        std::shared_ptr<QPDFJob::PagesConfig> c_pages;
+        std::shared_ptr<QPDFJob::UOConfig> c_uo;
+        std::shared_ptr<QPDFJob::EncConfig> c_enc;
+    };
+    using RFn = std::function<void(Replay&, std::vector<std::string> const&)>;
+    template <typename P> P& need(P& p)
+    {
+        if (!p) { throw std::logic_error("replay: call on a null config object"); }
+        return p;
+    }
+    std::map<std::string, RFn> const& dispatch()
+    {
+        static std::map<std::string, RFn> t = {
+#define D0(obj, meth) {#obj "." #meth "/0", [](Replay& r, std::vector<std::string> const&) { need(r.obj)->meth(); }},
+#define D1(obj, meth) {#obj "." #meth "/1", [](Replay& r, std::vector<std::string> const& a) { need(r.obj)->meth(a.at(0)); }},
+#include "gen_job_dispatch.inc"
+#undef D0
+#undef D1
+            // calls made by the hand-written handlers of both front ends
+            {"c_main.inputFile/1", [](Replay& r, std::vector<std::string> const& a) { r.c_main->inputFile(a.at(0)); }},
+            {"c_main.outputFile/1", [](Replay& r, std::vector<std::string> const& a) { r.c_main->outputFile(a.at(0)); }},
+            {"c_main.emptyInput/0", [](Replay& r, std::vector<std::string> const&) { r.c_main->emptyInput(); }},
+            {"c_main.replaceInput/0", [](Replay& r, std::vector<std::string> const&) { r.c_main->replaceInput(); }},
+            {"c_main.encrypt/3", [](Replay& r, std::vector<std::string> const& a) { r.c_enc = r.c_main->encrypt(std::stoi(a.at(0)), a.at(1), a.at(2)); }},
+            {"c_enc.endEncrypt/0", [](Replay& r, std::vector<std::string> const&) { need(r.c_enc)->endEncrypt(); r.c_enc = nullptr; }},
+            {"c_main.pages/0", [](Replay& r, std::vector<std::string> const&) { r.c_pages = r.c_main->pages(); }},
+            {"c_pages.endPages/0", [](Replay& r, std::vector<std::string> const&) { need(r.c_pages)->endPages(); r.c_pages = nullptr; }},
+            {"c_main.overlay/0", [](Replay& r, std::vector<std::string> const&) { r.c_uo = r.c_main->overlay(); }},
+            {"c_main.underlay/0", [](Replay& r, std::vector<std::string> const&) { r.c_uo = r.c_main->underlay(); }},
+            {"c_uo.endUnderlayOverlay/0", [](Replay& r, std::vector<std::string> const&) { need(r.c_uo)->endUnderlayOverlay(); r.c_uo = nullptr; }},
+            {"c_main.addAttachment/0", [](Replay& r, std::vector<std::string> const&) { r.c_att = r.c_main->addAttachment(); }},
+            {"c_att.file/1", [](Replay& r, std::vector<std::string> const& a) { need(r.c_att)->file(a.at(0)); }},
+            {"c_att.endAddAttachment/0", [](Replay& r, std::vector<std::string> const&) { need(r.c_att)->endAddAttachment(); r.c_att = nullptr; }},
+            {"c_main.copyAttachmentsFrom/0", [](Replay& r, std::vector<std::string> const&) { r.c_copy_att = r.c_main->copyAttachmentsFrom(); }},
+            {"c_copy_att.file/1", [](Replay& r, std::vector<std::string> const& a) { need(r.c_copy_att)->file(a.at(0)); }},
+            {"c_copy_att.endCopyAttachmentsFrom/0", [](Replay& r, std::vector<std::string> const&) { need(r.c_copy_att)->endCopyAttachmentsFrom(); r.c_copy_att = nullptr; }},
+            {"c_main.global/0", [](Replay& r, std::vector<std::string> const&) { r.c_global = r.c_main->global(); }},
+            {"c_global.endGlobal/0", [](Replay& r, std::vector<std::string> const&) { need(r.c_global)->endGlobal(); r.c_global = nullptr; }},
+            {"c_main.checkConfiguration/0", [](Replay& r, std::vector<std::string> const&) { r.c_main->checkConfiguration(); }},
+        };
+        return t;
+    }
+
+    std::string cfg_replay(std::vector<std::string> const& a)
+    {
+        std::string end = a.at(0);
+        std::string calls = a.size() > 1 ? a.at(1) : "-";
+        Replay r;
+        r.c_main = r.j.config();
+        try {
+            if (calls != "-") {
+                std::stringstream ss(calls);
+                std::string c;
+                while (std::getline(ss, c, ';')) {
+                    auto lp = c.find('(');
+                    if (lp == std::string::npos || c.back() != ')') { return "?bad-call " + c; }
+                    std::string name = c.substr(0, lp);
+                    std::string argstr = c.substr(lp + 1, c.size() - lp - 2);
+                    std::vector<std::string> args;
+                    if (!argstr.empty()) {
+                        std::stringstream as(argstr);
+                        std::string x;
+                        while (std::getline(as, x, ',')) { args.push_back(unhex(x)); }
+                    }
+                    if (name == "c_main.setPageLabels") {
+                        r.c_main->setPageLabels(args);
+                        continue;
+                    }
+                    auto it = dispatch().find(name + "/" + std::to_string(args.size()));
+                    if (it == dispatch().end()) { return "?unknown-config-method " + name + "/" + std::to_string(args.size()); }
+                    it->second(r, args);
+                }
+            }
+        } catch (QPDFUsage const& e) {
+            return "usage " + hex(e.what());
+        } catch (std::logic_error const& e) {
+            return std::string("?logic_error ") + e.what();
+        } catch (std::exception const& e) {
+            return "error " + hex(e.what());
+        }
+        if (end != "fin") { return "end " + end; }
+        return "ok " + dump_members(r.j);
+    }
+} // namespace
+
+static Reg r_cfg_replay("cfg_replay", [](std::vector<std::string> const& a) -> std::string { return cfg_replay(a); });
+static Reg r_cfgf_replay("cfgf_replay", [](std::vector<std::string> const& a) -> std::string { return in_child([&a]() { return cfg_replay(a); }); });
